@@ -31,6 +31,10 @@ func runC07(c *Ctx) {
 	// the reservation is durable when store.Set returned nil - on a write-buffering store that is what
 	// the flushing wrapper provides, for every view it hands out
 	checkFlushingWrapper(r, p)
+	// ... and that the mark is found again under the same key: the map store's views keep their realm
+	// discipline (what is written under realm+key is read under realm+key, sibling realms are disjoint)
+	checkRealmDiscipline(r, p)
+	checkExtendedRealm(r, p, "kvstore/mapdb", "mapDB")
 	methods := p.Methods(pkg, "Sequence")
 	if p.FuncDecl(pkg, "Sequence", "Next") == nil || p.FuncDecl(pkg, "Sequence", "Release") == nil {
 		r.Unresolved("seq/anchors", "kvstore.Sequence", "expected the operations Next and Release")
